@@ -333,6 +333,10 @@ def minimise(spec, key, still_fails, deadline):
     return spec
 
 
+def spec_for(prop, tier, seed, index):
+    return gen_spec(prop, tier, seed, index)
+
+
 def describe(prop):
     return dict(
         level='exploration',
